@@ -313,9 +313,20 @@ def check_gate_fidelity(env, n, tier):
                        note="a second process() on the same object after the circuit was extended measures the extended circuit (fidelity one against its own matrix)", model=dict(got=str(got2)))
 
 
-def mle_family(n):
+def mle_family(n, tier="quick"):
     import lightworks as lw
     from lightworks import qubit
+    extra = []
+    if tier == "thorough":
+        import random
+        rnd = random.Random(16)
+        if n == 1:
+            for k in range(12):
+                a, b, c_ = (round(rnd.uniform(-3.1, 3.1), 3) for _ in range(3))
+                extra.append((f"Rz({c_})Ry({b})Rz({a})", [(qubit.Rz(a), 0), (qubit.Ry(b), 0), (qubit.Rz(c_), 0)]))
+        else:
+            extra = [("CZ.(H x T)", [(qubit.H(), 0), (qubit.T(), 2), (qubit.CZ(), 0)]), ("CNOT.SWAP.(S x Ry(1.1))", [(qubit.S(), 0), (qubit.Ry(1.1), 2), (qubit.SWAP((0, 1), (2, 3)), 0), (qubit.CNOT(), 0)]),
+                     ("(Rx(0.4) x Rz(2.0)).CNOT(0)", [(qubit.CNOT(0), 0), (qubit.Rx(0.4), 0), (qubit.Rz(2.0), 2)])]
 
     def mk(n_, *adds):
         c = lw.Circuit(2 * n_)
@@ -325,16 +336,16 @@ def mle_family(n):
     if n == 1:
         return [("H", mk(1, (qubit.H(), 0))), ("S", mk(1, (qubit.S(), 0))), ("T", mk(1, (qubit.T(), 0))), ("Ry(0.7)", mk(1, (qubit.Ry(0.7), 0))),
                 ("Rx(0.7)", mk(1, (qubit.Rx(0.7), 0))), ("T.Ry(0.7)", mk(1, (qubit.Ry(0.7), 0), (qubit.T(), 0))), ("SX", mk(1, (qubit.SX(), 0))),
-                ("Rz(1.3)Ry(0.7)Rz(0.4)", mk(1, (qubit.Rz(0.4), 0), (qubit.Ry(0.7), 0), (qubit.Rz(1.3), 0)))]
+                ("Rz(1.3)Ry(0.7)Rz(0.4)", mk(1, (qubit.Rz(0.4), 0), (qubit.Ry(0.7), 0), (qubit.Rz(1.3), 0)))] + [(lab, mk(1, *adds)) for lab, adds in extra]
     return [("CNOT", mk(2, (qubit.CNOT(), 0))), ("CNOT(0)", mk(2, (qubit.CNOT(0), 0))), ("SWAP", mk(2, (qubit.SWAP((0, 1), (2, 3)), 0))),
-            ("Ry(0.7).CZ.(S x T)", mk(2, (qubit.S(), 0), (qubit.T(), 2), (qubit.CZ(), 0), (qubit.Ry(0.7), 2)))]
+            ("Ry(0.7).CZ.(S x T)", mk(2, (qubit.S(), 0), (qubit.T(), 2), (qubit.CZ(), 0), (qubit.Ry(0.7), 2)))] + [(lab, mk(2, *adds)) for lab, adds in extra]
 
 
 def check_mle(env, n, tier):
     from lightworks import tomography
     from lightworks.tomography import choi_from_unitary
     name = "lightworks/tomography/process_tomography_mle.py:MLEProcessTomography.process#bnd"
-    for label, base in mle_family(n):
+    for label, base in mle_family(n, tier):
         V = real_np.array(gate_matrix_of(env, base, n), dtype=complex)
         tomo = tomography.MLEProcessTomography(n, base, experiment_factory(env, n))
         choi = tomo.process()
